@@ -5,7 +5,9 @@ open Qx.Driver Qx.C16
 /-! Line-protocol stepper for the C16 model.  Connection 0 is the victim (logged in by `reset`), every op
 line is an element sent by connection 1 (the attacker) or `deliver i`. -/
 
-def table : List (String × String) := [("victim", "vpw"), ("mallory", "mpw"), ("eve", "epw")]
+/-- the last account is what a registration-open / pass-through checker would accept: a name with '@' and '/' -/
+def table : List (String × String) :=
+  [("victim", "vpw"), ("mallory", "mpw"), ("eve", "epw"), ("victim@example.org/x", "xpw")]
 
 def lookupPw (u : List Char) : Option (List Char) :=
   (table.find? (fun e => e.1.toList = u)).map (·.2.toList)
@@ -44,6 +46,10 @@ def parsePayload (w : String) : Option Payload :=
   else if w = "m" then some .junk
   else match w.splitOn ":" with
     | ["c", u, p] => some (.creds u.toList p.toList)
+    -- `authzid\0authcid\0password`: the authorization identity is not looked at
+    | ["z", _, u, p] => some (.creds u.toList p.toList)
+    -- a DIGEST-MD5 response that also carries authzid="victim@example.org": not looked at either
+    | ["a", claimed, su, sp] => some (.dresp claimed.toList (md5tok su.toList sp.toList) true)
     | ["d", claimed, su, sp, q] => some (.dresp claimed.toList (md5tok su.toList sp.toList) (q = "a"))
     -- a recorded response replayed verbatim: computed over a stale nonce, so it is computed from no digest at all
     | ["r", claimed, _, _] => some (.dresp claimed.toList "!stale-nonce".toList true)
@@ -118,17 +124,20 @@ def toSocket (c : Nat) : Out → Option String
 
 def joinOrDash (l : List String) : String := if l.isEmpty then "-" else ";".intercalate l
 
-def obs (s : Server) (outs : List Out) : String :=
+def showJid (x : Conn) : String := if x.closed ∨ x.jid = [] then "-" else str x.jid
+def openFlag (x : Conn) : String := if x.closed then "0" else "1"
+
+/-- observation of a step performed by connection `c` (1 or 2 = attackers, 0 = victim) -/
+def obs (s : Server) (c : Nat) (outs : List Out) : String :=
   if outs.any (fun o => match o with | .ub _ => true | _ => false) then "ub" else
   let a := outs.filterMap (toSocket 1)
+  let b := outs.filterMap (toSocket 2)
   let v := outs.filterMap (toSocket 0)
-  let r := outs.filterMap fun o => match o with | .routed 1 st => some (showRouted st) | _ => none
+  let r := outs.filterMap fun o => match o with | .routed c' st => if c' = c then some (showRouted st) else none | _ => none
   let sg := outs.filterMap fun o => match o with
     | .connected _ j => some s!"conn({str j})" | .disconnected _ j => some s!"disc({str j})" | _ => none
-  let au := outs.filterMap fun o => match o with | .authed 1 j => some s!"auth({str j})" | _ => none
-  let c1 := s.conns 1
-  let j := if c1.closed ∨ c1.jid = [] then "-" else str c1.jid
-  s!"A={joinOrDash a} V={joinOrDash v} R={joinOrDash r} S={joinOrDash sg} U={joinOrDash au} J={j} a={if c1.closed then 0 else 1} v={if (s.conns 0).closed then 0 else 1}"
+  let au := outs.filterMap fun o => match o with | .authed c' j => if c' = c then some s!"auth({str j})" else none | _ => none
+  s!"A={joinOrDash a} B={joinOrDash b} V={joinOrDash v} R={joinOrDash r} S={joinOrDash sg} U={joinOrDash au} J={showJid (s.conns 1)} K={showJid (s.conns 2)} a={openFlag (s.conns 1)} b={openFlag (s.conns 2)} v={openFlag (s.conns 0)}"
 
 /-- the victim's login, as the harness performs it on connection 0 -/
 def victimLogin : List (Nat × Ev) :=
@@ -145,25 +154,29 @@ structure DS where
 def cfgOf (stock : Bool) : Cfg := if stock then cfgStock else cfgOwn
 
 /-- with the stock checker every reply finishes on the next event-loop turn, i.e. before the next element -/
-def deliverAll (cfg : Cfg) : Nat → Server → List Out → Server × List Out
+def deliverAll (cfg : Cfg) (c : Nat) : Nat → Server → List Out → Server × List Out
   | 0, s, acc => (s, acc)
   | n + 1, s, acc =>
-    if (s.conns 1).pending.isEmpty then (s, acc)
-    else let r := step cfg s (1, .deliver 0); deliverAll cfg n r.1 (acc ++ r.2)
+    if (s.conns c).pending.isEmpty then (s, acc)
+    else let r := step cfg s (c, .deliver 0); deliverAll cfg c n r.1 (acc ++ r.2)
 
 def startOf (stock : Bool) : DS := { stock := stock, s := (run (cfgOf stock) init victimLogin).1 }
 
+/-- op lines: `reset` / `reset stock`, otherwise `<connection> <element…>` with connection 1 or 2 -/
 def stepLine (d : DS) (line : String) : DS × String :=
   match words line with
   | ["reset"] => (startOf false, "ok")
   | ["reset", "stock"] => (startOf true, "ok")
-  | ws =>
-    match parseEv ws with
-    | some ev =>
-      let cfg := cfgOf d.stock
-      let r := step cfg d.s (1, ev)
-      let r2 := if d.stock then deliverAll cfg 8 r.1 r.2 else r
-      ({ d with s := r2.1 }, obs r2.1 r2.2)
-    | none => (d, "bad-op")
+  | cw :: ws =>
+    match cw.toNat?, parseEv ws with
+    | some c, some ev =>
+      if c = 1 ∨ c = 2 then
+        let cfg := cfgOf d.stock
+        let r := step cfg d.s (c, ev)
+        let r2 := if d.stock then deliverAll cfg c 8 r.1 r.2 else r
+        ({ d with s := r2.1 }, obs r2.1 c r2.2)
+      else (d, "bad-op")
+    | _, _ => (d, "bad-op")
+  | [] => (d, "bad-op")
 
 def main : IO Unit := Qx.Driver.run (startOf false) stepLine
